@@ -92,6 +92,25 @@ theorem map2d_cases (outside : α) (profile : α → α) (poly interpN : α → 
   · exact map2d_inside _ _ _ _ _ _ h.1 h.2
   · exact map2d_outside _ _ _ _ _ _ h
 
+/-- contract of the polygon mask (cherab `PolygonMask2D` over raysect's triangulated `Discrete2DMesh`): positive
+exactly on the points of the LCFS polygon.  **This hypothesis is what finding C12-1 refutes for the unpatched
+implementation** at floating-point points lying on an internal edge of the polygon triangulation (S: crack search);
+the theorem itself is about the model and unaffected. -/
+def MaskSpec (poly : α → α → α) (inPolygon : α → α → Prop) : Prop := ∀ r z, 0 < poly r z ↔ inPolygon r z
+
+/-- the property sentence in geometric terms: with a correct polygon mask the mapped function is the profile at
+the normalised flux of the point exactly on {polygon ∧ ψN ≤ 1} and the outside value elsewhere -/
+theorem map2d_geometric (outside : α) (profile : α → α) (poly interpN : α → α → α) (inPolygon : α → α → Prop)
+    [∀ r z, Decidable (inPolygon r z)] (hmask : MaskSpec poly inPolygon) (r z : α) :
+    map2d outside profile poly interpN r z =
+      if inPolygon r z ∧ psiN interpN r z ≤ 1 then profile (psiN interpN r z) else outside := by
+  rw [map2d_cases]
+  by_cases h : inPolygon r z
+  · have : 0 < poly r z := (hmask r z).mpr h
+    simp [h, this]
+  · have : ¬ 0 < poly r z := fun hp => h ((hmask r z).mp hp)
+    simp [h, this]
+
 /-- the 3-D map is the 2-D map at the cylindrical radius … -/
 theorem map3d_eq_map2d (sqrt : α → α) (outside : α) (profile : α → α) (poly interpN : α → α → α) (x y z : α) :
     map3d sqrt outside profile poly interpN x y z = map2d outside profile poly interpN (sqrt (x * x + y * y)) z := rfl
